@@ -33,6 +33,7 @@ type Mismatch struct {
 	Thorough bool     `json:"thorough"`
 	Small    bool     `json:"small"`
 	Reopen   bool     `json:"reopen"`
+	Addr     string   `json:"addr,omitempty"`
 	Tour     []Step   `json:"tour"`
 	At       int      `json:"at"` // index of the failing step
 	Msgs     []string `json:"msgs"`
@@ -129,6 +130,7 @@ type RunCfg struct {
 	KeyModes []int
 	Reopen   bool // C15: close and reopen before every read-only tail / at the end
 	Workers  int
+	Addr     string // "", "host:<base>", "slashes"
 }
 
 // runTour executes one tour on a fresh system; returns the first mismatch.
@@ -142,6 +144,12 @@ func runTour(cfg *RunCfg, sysName string, salt int64, keyMode int, tour []Step) 
 	conc.keyMode = keyMode
 	conc.small = cfg.Small
 	x := NewExec(sys, conc)
+	switch {
+	case strings.HasPrefix(cfg.Addr, "host:"):
+		x.Addr = hostStyle(cfg.Addr[5:])
+	case cfg.Addr == "slashes":
+		x.Addr = extraSlashes
+	}
 	steps := 0
 	for i, st := range tour {
 		if cfg.Reopen && ((st.Audit && (i == 0 || !tour[i-1].Audit)) || (i == len(tour)-1 && !st.Audit)) {
@@ -155,7 +163,7 @@ func runTour(cfg *RunCfg, sysName string, salt int64, keyMode int, tour []Step) 
 		if bad := x.Compare(st.Op, st.R, obs); len(bad) > 0 {
 			return &Mismatch{
 				Property: cfg.Property, System: sysName, Opts: cfg.Opts, Seed: cfg.Seed, Salt: salt, KeyMode: keyMode,
-				Thorough: cfg.Thorough, Small: cfg.Small, Reopen: cfg.Reopen,
+				Thorough: cfg.Thorough, Small: cfg.Small, Reopen: cfg.Reopen, Addr: cfg.Addr,
 				Tour: tour, At: i, Msgs: bad,
 				Observed: fmt.Sprintf("%d %s", obs.Status, short(obs.Body)),
 			}, steps, nil
